@@ -20,10 +20,12 @@ META = {
         "design_ref": "DESIGN.md §3 C02",
     },
     "C03": {
-        "text": "PARTIAL proof about an ABSTRACT move, not a transcription of rvb.rs: Coq proves that re-drawing n boundary operators in proportion to their post-flip weights and accepting with min(1,(W_after/W_before)^n) balances the configuration weight exactly, that a zero ratio is never accepted, and that such a kernel composes with the others. "
-                "The implementation is tied to the property only by implementation-side oracles: exact diagonalisation with automatic and explicit RVB (with heat bath, h = 0,+,-, frustrated triangles, multi-edges, unequal |J|) and, after every call of random histories interleaving RVB sweeps with other updates, world-line, legality, counter and structural checks.",
-        "note": "Trusted: Coq kernel; exact-diagonalisation oracle; naive checkers. The RVB implementation is modelled by nothing executable in Coq: a change to rvb.rs is detected by the oracles only (replay = failing model/run).",
-        "technique": "Coq proof of the acceptance algebra of the abstract RVB move + exact-diagonalisation and structural oracles on the real implementation",
+        "text": "PARTIAL proof. rvb.rs, util/bondcontainer.rs and util/vec_help.rs are transcribed into an executable Gallina model (Model/Rvb.v: region search with the weighted boundary sets and their swap-remove key order, overlap search, acceptance ratio, graph rewrite, order of all RNG draws) and every single_rvb_sweep / RVB-enabled timestep of the correspondence histories is replayed by it on the raw RNG words (state, operator string and success count must agree). "
+                "Coq theorems about the transcription, for all inputs: the boundary set is a finite map (distinct keys kept by insert / swap-remove, lookup semantics, running total), a draw returns key i with probability w_i/total and a zero-weight bond with probability exactly 0, toggle positions keep exactly the odd multiplicities, region sizes follow 2^-k, and for EVERY sequence of random draws a sweep keeps each operator at its slot (operator count, string and state lengths). "
+                "Coq theorems about the abstract move (re-draw n boundary operators in proportion to their post-flip weights, accept with min(1,(W_after/W_before)^n)): it balances the configuration weight exactly, a zero ratio is never accepted, such kernels compose. "
+                "NOT proved: that the transcribed region search realises the abstract move (detailed balance of the concrete program), ergodicity; these are decided by exact diagonalisation with automatic and explicit RVB (heat bath, h = 0,+,-, frustrated triangles, multi-edges, unequal |J|) and by world-line, legality, counter and structural checks after every call.",
+        "note": "Trusted: Coq kernel + vm_compute; the transcription Model/Rvb.v (validated by raw-tape replay; the container is seen through its scan specification, C11); exact-diagonalisation oracle; naive checkers.",
+        "technique": "Coq proof (boundary-set refinement, draw law, structural invariants of the transcribed RVB update for all draw sequences; acceptance algebra of the abstract move) + raw-tape replay of real RVB sweeps + exact-diagonalisation and structural oracles",
         "design_ref": "DESIGN.md §3 C03",
     },
     "C04": {
